@@ -36,7 +36,10 @@ KEY_FORMS = ["c", "c", "c", "u", "u", "h", "hbad", "xgep", "off", "p05", "short"
 SIG_VARIANTS = ["ok", "ok", "ok", "ok", "ok", "ok", "ok", "ok", "empty", "empty", "empty", "highs", "padr", "pads", "negr", "negs", "r0", "s0", "rn", "r33",
                 "seqlen+1", "seqlen-1", "longlen", "longrlen", "trail", "notseq", "nohashtype", "empty", "wrongkey",
                 "wrongmsg", "s-lastlow", "s-firsthigh", "s-halfp"]
-HASHTYPES = st.one_of(st.sampled_from([1, 1, 1, 2, 3, 0x81, 0x82, 0x83, 0, 4, 0x41, 0xff, 0x80, 0x21, 0x1f]),
+# undefined hash-type bytes matter without STRICTENC: only the low five bits (and 0x80) select the algorithm, so
+# 0x22 / 0x43 / 0xe3 ... are NONE / SINGLE with decoration, 0x21 / 0x41 / 0x00 / 0x04 behave like ALL
+HASHTYPES = st.one_of(st.sampled_from([1, 1, 1, 2, 3, 0x81, 0x82, 0x83, 0, 4, 0x41, 0xff, 0x80, 0x21, 0x1f,
+                                       0x22, 0x23, 0x42, 0x43, 0x62, 0x63, 0xa2, 0xa3, 0xc2, 0xc3, 0xe2, 0xe3, 0x24, 0x5f]),
                       st.integers(0, 255))
 
 
